@@ -10,7 +10,7 @@ mod proofs {
         let out_len: usize = kani::any(); kani::assume(out_len <= 2);
         // output bytes: ASCII, or 0xFF (never valid in UTF-8) for the "invalid UTF-8 with exit 0" fault
         kani::assume((out[0] < 0x80 || out[0] == 0xFF) && (out[1] < 0x80 || out[1] == 0xFF));
-        let sc = Script { stdin_ok: kani::any(), spawn_ok: kani::any(), out, out_len, read_err_at: kani::any(), wait_ok: kani::any(), raw_status: kani::any() };
+        let sc = Script { streams: kani::any(), big: kani::any(), stdin_ok: kani::any(), spawn_ok: kani::any(), out, out_len, read_err_at: kani::any(), wait_ok: kani::any(), raw_status: kani::any() };
         set_script(sc);
         let nlines: usize = if simple { 0 } else { let n: usize = kani::any(); kani::assume(n <= 2); n };
         let header_off: bool = if simple { true } else { kani::any() };
@@ -57,7 +57,7 @@ mod proofs {
     fn faults(stdin_ok: bool) {
         let out: [u8; 4] = kani::any();
         let out_len: usize = kani::any(); kani::assume(out_len <= 2);
-        let sc = Script { stdin_ok, spawn_ok: kani::any(), out, out_len, read_err_at: kani::any(), wait_ok: kani::any(), raw_status: kani::any() };
+        let sc = Script { streams: kani::any(), big: kani::any(), stdin_ok, spawn_ok: kani::any(), out, out_len, read_err_at: kani::any(), wait_ok: kani::any(), raw_status: kani::any() };
         set_script(sc);
         let b = Bindings { options: BindgenOptions { disable_header_comment: true, raw_lines: Lines { a: ["r", "s"], n: 0 }, formatter: Formatter::Rustfmt, time_phases: false, rustfmt_path: None,
                                                      rustfmt_configuration_file: None, rust_edition: None, rust_target: RustTarget }, module: proc_macro2::TokenStream };
